@@ -3,6 +3,7 @@ package harness
 import (
 	"encoding/json"
 	"fmt"
+	"time"
 
 	"verif/simrt"
 	atomic "verif/simrt/simatomic"
@@ -110,6 +111,89 @@ func userRacyPoolUseAfterPut(p *toyPub) {
 	b.v++ // still using it after handing it back
 }
 
+// toys for the channel, select and timer seams (written the way cmd/simgen instruments such code)
+
+type toyChan struct {
+	tok  chan struct{} // capacity 1: a lock
+	data chan int
+	done chan struct{}
+	n    int
+	hits atomic.Int64
+	mu   sync.Mutex
+	tm   *time.Timer
+}
+
+func userChanTokenInc(c *toyChan) {
+	simrt.PreChan()
+	c.tok <- struct{}{}
+	simrt.PostChan()
+	c.n++
+	simrt.PreChan()
+	<-c.tok
+	simrt.PostChan()
+}
+
+// correct: the value travels through the select, the plain field is written before the send and read after the receive
+func userSelectSend(c *toyChan) {
+	c.n = 7
+	simrt.PreChan()
+	s0 := simrt.SendTo(c.data).Val(1)
+	s1 := simrt.RecvFrom(c.done)
+	switch simrt.Select(false, s0, s1) {
+	case 0:
+		simrt.PostChan()
+	case 1:
+		simrt.PostChan()
+	}
+}
+
+func userSelectRecv(c *toyChan) int {
+	simrt.PreChan()
+	r0 := simrt.RecvFrom(c.data)
+	r1 := simrt.RecvFrom(c.done)
+	switch simrt.Select(false, r0, r1) {
+	case 0:
+		v, ok := r0.Got2()
+		simrt.PostChan()
+		if ok && v == 1 {
+			return c.n
+		}
+	case 1:
+		simrt.PostChan()
+	}
+	return -1
+}
+
+// racy: polls a channel nobody writes to (default clause taken) and then touches the field with no synchronisation
+func userRacySelectDefault(c *toyChan) {
+	simrt.PreChan()
+	r0 := simrt.RecvFrom(c.done)
+	switch simrt.Select(true, r0) {
+	case 0:
+		simrt.PostChan()
+	default:
+		simrt.PostChan()
+		c.n++
+	}
+}
+
+// correct: a timer that re-arms itself from its own callback (every firing is a task of its own)
+func userTimerRearm(c *toyChan) {
+	c.mu.Lock()
+	c.tm = simrt.AfterFunc(time.Millisecond, func() {
+		c.mu.Lock()
+		defer c.mu.Unlock()
+		if c.hits.Add(1) < 4 {
+			simrt.TimerReset(c.tm, 0)
+		}
+	})
+	c.mu.Unlock()
+	simrt.Sleep(10 * time.Millisecond)
+	c.mu.Lock()
+	simrt.TimerStop(c.tm)
+	c.mu.Unlock()
+}
+
 // CanaryWork is one canary program.
 type CanaryWork struct {
 	P    SimSpec `json:"sim"`
@@ -148,16 +232,33 @@ func (w *CanaryWork) Exec(x *Exec) {
 	case "pool-use-after-put":
 		fns = []func(){func() { userRacyPoolUseAfterPut(p) }, func() { userRacyPoolUseAfterPut(p) }}
 	}
+	ch := &toyChan{tok: make(chan struct{}, 1), data: make(chan int), done: make(chan struct{})}
+	switch w.Kind {
+	case "chan-token":
+		fns = []func(){func() { userChanTokenInc(ch) }, func() { userChanTokenInc(ch) }, func() { userChanTokenInc(ch) }}
+	case "select-handoff":
+		fns = []func(){func() { userSelectSend(ch) }, func() { userSelectRecv(ch) }}
+	case "select-default-racy":
+		fns = []func(){func() { userRacySelectDefault(ch) }, func() { userRacySelectDefault(ch) }}
+	case "timer-rearm":
+		fns = []func(){func() { userTimerRearm(ch) }}
+	}
 	for i, f := range fns {
 		x.Spawn(fmt.Sprintf("t%d", i), f)
 	}
 	if end := x.RunPhase(); end == simrt.EndDeadlock {
 		x.Violate("deadlock", "canary:deadlock:"+w.Kind, x.S.EndDetail)
 	}
+	if w.Kind == "timer-rearm" {
+		if n := ch.hits.Load(); n != 4 {
+			x.Violate("oracle", "canary:timer-rearm:firings", fmt.Sprintf("a timer re-armed three times from its own callback fired %d times, want 4", n))
+		}
+	}
 }
 
 var canaryKinds = []string{"racy", "safe", "rw", "lockorder", "recursive-rlock",
-	"atomic-add", "atomic-publish", "atomic-flag-ignored", "pool", "pool-use-after-put"}
+	"atomic-add", "atomic-publish", "atomic-flag-ignored", "pool", "pool-use-after-put",
+	"chan-token", "select-handoff", "select-default-racy", "timer-rearm"}
 
 func genCanary(r *simrt.Rand, tier string, idx uint64) Workload {
 	w := &CanaryWork{Kind: canaryKinds[int(idx%uint64(len(canaryKinds)))]}
